@@ -613,7 +613,7 @@ def routing_gen_text() -> str:
     _expect(merge_match is not None, "matcher.match: merge re.sub not found")
     _need(mm, "StateMachineMatcher.match", [
         "groups = [value for key, value in converter_groups if key[:11] == '__werkzeug_']",
-        "converter_groups = sorted(match.groupdict().items(), key=lambda entry: entry[0])",
+        "converter_groups = sorted(match.groupdict().items(), key=lambda entry: (len(entry[0]), entry[0]))",
         "rv = _match(self._root, [domain, *path.split('/')], [])",
         "raise RequestPath(f'{path}/') from None", "raise RequestPath(f'{path}')",
         "if self.merge_slashes and rv is None: path = re.sub('/{2,}?', '/', path)",
@@ -841,6 +841,7 @@ class RuleSpec:
     alias: bool = False
     defaults: tuple = ()            # ((name, value), ...)  value: int | str
     dom: Seg = Seg(lit="")
+    build_only: bool = False        # Rule(build_only=True): not matched, provides no defaults, still built
 
     def string(self) -> str:
         items = [s.text() for s in self.segs] + ([f"<path:{self.tail}>"] if self.tail else [])
@@ -861,7 +862,7 @@ class RuleSpec:
             kw["subdomain"] = d
         return Rule(self.string(), endpoint=f"e{self.endpoint}", methods=list(self.methods) if self.methods is not None else None,
                     strict_slashes=self.strict, merge_slashes=self.merge, websocket=self.websocket, alias=self.alias,
-                    defaults=dict(self.defaults) if self.defaults else None, **kw)
+                    defaults=dict(self.defaults) if self.defaults else None, build_only=self.build_only, **kw)
 
     def enc(self) -> str:
         ob = lambda v: "~" if v is None else str(int(v))  # noqa: E731
@@ -908,7 +909,7 @@ class MapSpec:
     def describe(self) -> dict:
         return {"rules": [dict(rule=r.string(), endpoint=f"e{r.endpoint}", methods=r.methods, strict_slashes=r.strict,
                                merge_slashes=r.merge, subdomain_or_host=r.dom.text() or None, defaults=dict(r.defaults) or None,
-                               alias=r.alias, websocket=r.websocket) for r in self.rules],
+                               alias=r.alias, websocket=r.websocket, build_only=r.build_only) for r in self.rules],
                 "strict_slashes": self.strict, "merge_slashes": self.merge, "redirect_defaults": self.redirect_defaults,
                 "host_matching": self.host_matching}
 
@@ -1095,8 +1096,15 @@ def gen_rule(rng, idx: int, names=None, rich: bool = False) -> RuleSpec:
         branch = True
     methods = None
     if rng.random() < 0.4:
-        methods = tuple(sorted(rng.sample(["GET", "POST", "PUT"], rng.randint(1, 2))))
+        methods = spell_methods(rng, tuple(sorted(rng.sample(["GET", "POST", "PUT"], rng.randint(1, 2)))))
     return RuleSpec(idx=idx, endpoint=idx, segs=tuple(segs), tail=tail, branch=branch, methods=methods)
+
+
+def spell_methods(rng, methods: tuple) -> tuple:
+    """method names as applications write them: Rule.__init__ upper-cases them, then adds HEAD when GET is among them"""
+    if rng.random() < 0.65:
+        return methods
+    return tuple(rng.choice([x.lower(), x.capitalize(), x]) for x in methods)
 
 
 def variants_of(rng, r: RuleSpec, idx: int) -> RuleSpec:
@@ -1118,7 +1126,7 @@ def variants_of(rng, r: RuleSpec, idx: int) -> RuleSpec:
     if c < 0.8 and r.tail is None:
         return replace(r, idx=idx, endpoint=idx, tail=pool.pop(), segs=tuple(segs[:-1]) if segs and rng.random() < 0.5 else tuple(segs))
     if c < 0.9:
-        m = tuple(sorted(rng.sample(["GET", "POST", "PUT"], rng.randint(1, 2)))) if rng.random() < 0.7 else None
+        m = spell_methods(rng, tuple(sorted(rng.sample(["GET", "POST", "PUT"], rng.randint(1, 2))))) if rng.random() < 0.7 else None
         return replace(r, idx=idx, endpoint=idx, methods=m)
     return gen_rule(rng, idx)
 
@@ -1910,7 +1918,7 @@ def replay(rep: dict) -> int:
             kw["host" if d.get("host_matching") else "subdomain"] = r["subdomain_or_host"]
         rules.append(Rule(r["rule"], endpoint=r["endpoint"], methods=r["methods"], strict_slashes=r["strict_slashes"],
                           merge_slashes=r["merge_slashes"], defaults=r.get("defaults"), alias=r.get("alias", False),
-                          websocket=r.get("websocket", False), **kw))
+                          websocket=r.get("websocket", False), build_only=r.get("build_only", False), **kw))
     m = Map(rules, strict_slashes=d["strict_slashes"], merge_slashes=d["merge_slashes"], redirect_defaults=d["redirect_defaults"],
             host_matching=d["host_matching"])
     adp = inp.get("adapter") or {}
@@ -1947,7 +1955,8 @@ def spec_from_json(d: dict) -> MapSpec:
         rules.append(RuleSpec(idx=r["idx"], endpoint=r["endpoint"], segs=tuple(_seg_from(s) for s in r["segs"]), tail=r["tail"],
                               branch=r["branch"], methods=None if r["methods"] is None else tuple(r["methods"]), strict=r["strict"],
                               merge=r["merge"], websocket=r["websocket"], alias=r["alias"],
-                              defaults=tuple((k, v) for k, v in r["defaults"]), dom=_seg_from(r["dom"])))
+                              defaults=tuple((k, v) for k, v in r["defaults"]), dom=_seg_from(r["dom"]),
+                              build_only=r.get("build_only", False)))
     return MapSpec(rules=tuple(rules), strict=d["strict"], merge=d["merge"], redirect_defaults=d["redirect_defaults"],
                    host_matching=d["host_matching"])
 
